@@ -132,6 +132,9 @@ var c11RetErr = core.Mon(c11, "returned-error", func(w *core.W, c *RetErrCase) {
 			return nested(ctx, "inner()")
 		},
 		"fid": func(x interface{}) (interface{}, error) { return x, nil },
+		"two":   func(a, b interface{}) (interface{}, error) { calls["two"]++; return "two", nil },
+		"three": func(a, b, c interface{}) (interface{}, error) { calls["three"]++; return "three", nil },
+		"after": func() (interface{}, error) { calls["after"]++; return 1, nil },
 		"outer": func(ctx context.Context) (interface{}, error) {
 			calls["outer"]++
 			switch c.Err {
@@ -182,6 +185,11 @@ var c11RetErr = core.Mon(c11, "returned-error", func(w *core.W, c *RetErrCase) {
 		w.Violation("returned-error", "C11/escaped-panic", c, nil, fmt.Sprint(pv), src)
 		return
 	}
+	if calls["two"]+calls["three"]+calls["after"] != 0 {
+		w.Violation("returned-error", "C11/evaluation-continued-after-a-returned-error", c, "a returned error aborts the evaluation: nothing further is called", fmt.Sprint(calls, " result ", show(v), " err ", rerr),
+			src+" where outer returns a "+c.Err+" error")
+		return
+	}
 	if calls["outer"] != 1 {
 		w.Violation("returned-error", "C11/invocation-count", c, "outer called once", fmt.Sprint(calls), src)
 		return
@@ -212,7 +220,8 @@ func runC11b(w *core.W) {
 		}
 	}
 	for _, e := range retErrKinds {
-		for _, wr := range []string{"%s", "1 + %s", "[%s]", "fid(%s)", "true ? %s : 0", "$v = %s", "(%s)", "%s, 1", "0 || %s"} {
+		for _, wr := range []string{"%s", "1 + %s", "[%s]", "fid(%s)", "true ? %s : 0", "$v = %s", "(%s)", "%s, 1", "0 || %s",
+			"two(%s, 1)", "two(%s, after())", "three(1, %s, after())", "[%s, 1]", "[1, %s, after()]", "fid(two(%s, 2))", "two(%s, 1) + 1", "[two(%s, 1), 2]"} {
 			idx++
 			if w.Mine(idx) {
 				c11RetErr(w, &RetErrCase{Err: e, Wrap: wr})
